@@ -3,6 +3,7 @@ package checks
 import (
 	"encoding/json"
 	"fmt"
+	"github.com/openfga/language/pkg/go/transformer"
 	"sort"
 	"strings"
 
@@ -233,6 +234,36 @@ func wgReplay(cs *wgCase) (*ref.WG, *wgObs) {
 	return rg, o
 }
 
+// dslModel: the model can be written as DSL as it stands (every direct assignment first or alone, no operator with fewer
+// than two operands); the graph alphabets also hold operand orders that only JSON or protobuf can express.
+func dslModel(m *ref.Model) bool {
+	var ok func(r *ref.Rewrite, first bool) bool
+	ok = func(r *ref.Rewrite, first bool) bool {
+		switch r.Kind {
+		case ref.This:
+			return first
+		case ref.Union, ref.Inter, ref.Diff:
+			if len(r.Ch) < 2 {
+				return false
+			}
+			for i, c := range r.Ch {
+				if !ok(c, first && i == 0) {
+					return false
+				}
+			}
+		}
+		return true
+	}
+	for _, t := range m.Types {
+		for _, r := range t.Rels {
+			if r.Rw == nil || !ok(r.Rw, true) {
+				return false
+			}
+		}
+	}
+	return true
+}
+
 // ---- C05 ------------------------------------------------------------------------
 
 // f10Verdict tells whether the observed verdict is the one the defect model of
@@ -328,6 +359,21 @@ func c05Run(ctx *core.Ctx) {
 					return true
 				}
 				ctx.Flag("c05:sparse-metadata")
+			}
+			// the same model as the DSL parser hands it over (rendered, parsed, built in memory): the parser's protobuf differs from
+			// a hand-built one in representation - empty but present lists and maps, metadata entries for every relation -, which
+			// must change nothing
+			if dslModel(tm.M) {
+				if dm, err := transformer.TransformDSLToProto(ref.Render(tm.M, nil).Text); err == nil {
+					var o *wgObs
+					rt.Run(nil, nil, func() { o = wgBuild(dm) })
+					ctx.Trans(1)
+					tmd := gen.Tagged{Tag: tm.Tag + " [as parsed from its DSL text]", M: tm.M}
+					if !c05One(ctx, tmd, rg, an, &ae, o, nil, false) {
+						return true
+					}
+					ctx.Flag("c05:parsed-from-dsl")
+				}
 			}
 		}
 		if ok {
@@ -675,7 +721,7 @@ func init() {
 		Technique: "exhaustive exploration of map-iteration schedules (DFS start orders and inner maps) x bounded exhaustive model enumeration against a reference well-foundedness predicate",
 		Run:       c05Run,
 		Finish: func(r *core.Result) error {
-			for _, f := range []string{"map-sites-reached", "c05:accepted", "c05:rejected", "c05:clause:a", "c05:clause:b", "c05:clause:c", "c05:clause:d", "c05:clause:e", "c05:builder-reuse", "c05:sparse-metadata"} {
+			for _, f := range []string{"map-sites-reached", "c05:accepted", "c05:rejected", "c05:clause:a", "c05:clause:b", "c05:clause:c", "c05:clause:d", "c05:clause:e", "c05:builder-reuse", "c05:sparse-metadata", "c05:parsed-from-dsl"} {
 				if !r.Flags[f] {
 					return fmt.Errorf("C05: guard %q never exercised", f)
 				}
